@@ -363,3 +363,22 @@ def c08(ck):
     ck.replay(big, timeout=3000)
     ck.exhaustive = True
     ck.extra["bounds"] = consts
+
+
+@check("C18")
+def c18(ck):
+    ck.rule = ("every program of <= MaxSize nodes of the C01 grammar (special forms, closures), the C03 grammar "
+               "(try/catch/finally) and the C12 macro grammar x every cyclic stepper command script of length <= L over "
+               "{no-op, next, in, out} (84 scripts for L=3, 340 for L=4) and without a stepper; result, error-ness, effect "
+               "log and globals must equal Def.tla's outcome; every (form, visible bindings of x y e q) handed to the "
+               "callback must be in the set of (form, scope) pairs Def.tla's evaluation of that program visits "
+               "(quasiquote evaluated through the rewrite as coded)")
+    q = ck.quick
+    for which, size in (("c01", 2 if q else 3), ("c03", 2), ("c12", 2)):
+        consts = {"Which": '"%s"' % which, "MaxSize": size}
+        r = ck.tlc("GenC18", cfg(constants=consts), timeout=1500)
+        ck.tlc_ok(r, "GenC18")
+        args = ck.write_ctx(r.ctx) + ["-scriptlen", "3" if q else "4"]
+        ck.replay(r.cases, args=args, procs=16, timeout=3000)
+        ck.extra.setdefault("bounds", {})[which] = consts
+    ck.exhaustive = True
